@@ -131,7 +131,19 @@ def run_trading(rnd, S, cfgk, intensity=1.0, script=None, analyser=False):
             open_before = [o.order_id for o in env.broker.get_open_orders()]
             res = None
             try:
-                if r < 0.45 and stocks:
+                if r < 0.05 and stocks and "STOCK" in before and before["STOCK"]["holdings"]:
+                    # directed combination: buy today, rest a sell above the market, then sell (about) the whole holding
+                    h = srnd.choice(before["STOCK"]["holdings"])
+                    oid, held = h["id"], h["long"]["qty"]
+                    price = env.get_last_price(oid)
+                    if held > 0 and price == price and price > 0:
+                        call.update(api="combo_buy_rest_sell", args=(oid, held))
+                        res = []
+                        o1 = api.order_shares(oid, srnd.choice([100, 300, 500]))
+                        o2 = api.order_shares(oid, -max(100, (held // 200) * 100), price_or_style=LimitOrder(round(price * 1.03, 2)))
+                        o3 = api.order_shares(oid, -srnd.choice([held, max(100, (held // 100) * 100), held + 100]))
+                        res = [o for o in (o1, o2, o3) if o is not None]
+                elif r < 0.45 and stocks:
                     oid = srnd.choice(stocks)
                     price = env.get_last_price(oid)
                     style = None
